@@ -197,10 +197,14 @@ PROPS = {
             "quick": [
                 {"name": "mem-oracle-random", "args": ["mode=oracle", "cases=800", "maxops=40"]},
                 {"name": "mem-algo-lru", "args": ["mode=algo", "cases=1200", "maxops=60", "algos=lru"]},
+                # in-flight fetches: after every case (everything resolved or dropped) a fresh lookup holds the only
+                # reference to each cached record
+                {"name": "infl-refs", "domain": "infl", "args": ["cases=1500", "maxev=14"]},
             ],
             "thorough": [
                 {"name": "mem-oracle-random", "args": ["mode=oracle", "cases=20000", "maxops=80"]},
                 {"name": "mem-algo-lru", "args": ["mode=algo", "cases=40000", "maxops=120", "algos=lru"]},
+                {"name": "infl-refs", "domain": "infl", "args": ["cases=40000", "maxev=24"]},
             ],
         },
         "nontrivial": r"held=[0-9]",
@@ -494,7 +498,7 @@ PROPS.update({
             "thorough": [{"name": "hyb-random", "args": ["cases=6000", "maxops=40"]},
                          {"name": "hyb-big", "args": ["cases=2000", "maxops=40", "big=1"]},
                          {"name": "blk-overload", "domain": "blk", "args": ["cases=2000", "maxops=80", "overload=1"]},
-                         {"name": "blk-reinsertion", "domain": "blk", "args": ["cases=1000", "maxops=160", "overload=1", "reins=1"]},
+                         {"name": "blk-reinsertion", "domain": "blk", "args": ["cases=300", "maxops=160", "overload=1", "reins=1"]},
                          {"name": "blk-blobreuse", "domain": "blk", "args": ["cases=10", "blobreuse=1"]},
                          {"name": "hyb-inflight", "args": ["cases=120", "inflight=1"]}],
         },
@@ -634,7 +638,7 @@ PROPS.update({
                       {"name": "blk-reinsertion", "args": ["cases=60", "maxops=120", "overload=1", "reins=1", "watchdog=60"]}],
             "thorough": [{"name": "blk-overload", "args": ["cases=6000", "maxops=100", "overload=1", "watchdog=60"]},
                          {"name": "blk-overload-nodel", "args": ["cases=3000", "maxops=100", "overload=1", "nodel=1", "watchdog=60"]},
-                         {"name": "blk-reinsertion", "args": ["cases=2000", "maxops=160", "overload=1", "reins=1", "watchdog=60"]}],
+                         {"name": "blk-reinsertion", "args": ["cases=400", "maxops=160", "overload=1", "reins=1", "watchdog=60"]}],
         },
         "nontrivial": r"bev=\S*pick:",
         "rule": "the real HybridCache / block engine on a 4-8 block device (16 KiB blocks: about 3 entries per block) under "
